@@ -77,3 +77,17 @@ Proof. exact C16_excursion. Qed.
 Check C16_whole_excursion : forall v0 c0 v1 ops v2 ms t3, Inv v0 -> active (vterm v0) = Primary -> vt_feed v0 c0 = Ok v1 -> active (vterm v1) = Alternate -> alt_run v1 ops v2 -> execute (vterm v2) (Decrst ms) = Ok t3 -> active t3 = Primary -> (cols (vterm v2) = cols (vterm v0) -> rows (vterm v2) = rows (vterm v0) -> lines (buf t3) = lines (buf (vterm v0)) /\ term_text t3 = vt_text v0) /\ excursion_text_ok (buf (vterm v0)) (buf t3) = true.
 Print Assumptions C16_whole_excursion.
 
+From Avt Require Import Proofs.C10Char.
+(** Proofs/C10Char.v (second statement audit) *)
+(** the ?1049 excursion from ENTRY to EXIT with any feeds, flushes and resizes in between: the cursor comes back into the same logical line of the primary's text on the same character, text above intact, pen / origin / auto-wrap as at entry, geometry invariants; exact position and lines when the size at leaving equals the size at entering (no hypothesis on what happens on the alternate screen: only RIS touches the parked context, and RIS leaves the alternate screen) *)
+Theorem C16_excursion_1049_with_resizes : forall v0 v1 ops v2 t3, Inv v0 -> active (vterm v0) = Primary -> (* [v1]: the machine right after the step that executed ?1049h (its parser is the parser after the final [h]; any parser satisfying the parser invariant) *) PInv (vparser v1) -> execute (vterm v0) (Decset [SaveCursorAltScreenBuffer]) = Ok (vterm v1) -> alt_run v1 ops v2 -> execute (vterm v2) (Decrst [SaveCursorAltScreenBuffer]) = Ok t3 -> let t0 := vterm v0 in resize_preserves (buf t0) (viscol t0) (cur_row t0) (buf t3) (cur_col t3) (cur_row t3) = true /\ same_character (buf t0) (viscol t0) (cur_row t0) (buf t3) (cur_col t3) (cur_row t3) /\ active t3 = Primary /\ tpen t3 = tpen t0 /\ org t3 = org t0 /\ awm t3 = awm t0 /\ Types.pend t3 = false /\ cur_col t3 < cols t3 /\ cur_row t3 < rows t3 /\ cols t3 = cols (vterm v2) /\ rows t3 = rows (vterm v2) /\ (cols (vterm v2) = cols t0 -> rows (vterm v2) = rows t0 -> cur_col t3 = viscol t0 /\ cur_row t3 = cur_row t0 /\ lines (buf t3) = lines (buf t0)) /\ (forall p, holds_C02_state (mkVt p t3) = true).
+Proof. exact C16_excursion_1049_resized. Qed.
+Check C16_excursion_1049_with_resizes : forall v0 v1 ops v2 t3, Inv v0 -> active (vterm v0) = Primary -> (* [v1]: the machine right after the step that executed ?1049h (its parser is the parser after the final [h]; any parser satisfying the parser invariant) *) PInv (vparser v1) -> execute (vterm v0) (Decset [SaveCursorAltScreenBuffer]) = Ok (vterm v1) -> alt_run v1 ops v2 -> execute (vterm v2) (Decrst [SaveCursorAltScreenBuffer]) = Ok t3 -> let t0 := vterm v0 in resize_preserves (buf t0) (viscol t0) (cur_row t0) (buf t3) (cur_col t3) (cur_row t3) = true /\ same_character (buf t0) (viscol t0) (cur_row t0) (buf t3) (cur_col t3) (cur_row t3) /\ active t3 = Primary /\ tpen t3 = tpen t0 /\ org t3 = org t0 /\ awm t3 = awm t0 /\ Types.pend t3 = false /\ cur_col t3 < cols t3 /\ cur_row t3 < rows t3 /\ cols t3 = cols (vterm v2) /\ rows t3 = rows (vterm v2) /\ (cols (vterm v2) = cols t0 -> rows (vterm v2) = rows t0 -> cur_col t3 = viscol t0 /\ cur_row t3 = cur_row t0 /\ lines (buf t3) = lines (buf t0)) /\ (forall p, holds_C02_state (mkVt p t3) = true).
+Print Assumptions C16_excursion_1049_with_resizes.
+
+(** the same for ?47l / ?1047l (no cursor restore: text clauses against the buffer at entry) *)
+Theorem C16_excursion_47_with_resizes : forall v0 c0 v1 ops v2 t3, Inv v0 -> active (vterm v0) = Primary -> vt_feed v0 c0 = Ok v1 -> active (vterm v1) = Alternate -> alt_run v1 ops v2 -> execute (vterm v2) (Decrst [AltScreenBuffer]) = Ok t3 -> let t0 := vterm v0 in let t2 := vterm v2 in (let '(k, o) := curs (buf t0) (cur_col t2) (cur_row t2) in text_upto (logical_t (lines (buf t0))) (logical_t (lines (buf t3))) k o) = true /\ (cur_row t2 < rows t0 -> resize_preserves (buf t0) (cur_col t2) (cur_row t2) (buf t3) (cur_col t3) (cur_row t3) = true /\ ((cols t2 = cols t0 -> rows t2 < rows t0 -> cur_col t2 < cols t0) -> same_character (buf t0) (cur_col t2) (cur_row t2) (buf t3) (cur_col t3) (cur_row t3))).
+Proof. exact C16_excursion_47_resized. Qed.
+Check C16_excursion_47_with_resizes : forall v0 c0 v1 ops v2 t3, Inv v0 -> active (vterm v0) = Primary -> vt_feed v0 c0 = Ok v1 -> active (vterm v1) = Alternate -> alt_run v1 ops v2 -> execute (vterm v2) (Decrst [AltScreenBuffer]) = Ok t3 -> let t0 := vterm v0 in let t2 := vterm v2 in (let '(k, o) := curs (buf t0) (cur_col t2) (cur_row t2) in text_upto (logical_t (lines (buf t0))) (logical_t (lines (buf t3))) k o) = true /\ (cur_row t2 < rows t0 -> resize_preserves (buf t0) (cur_col t2) (cur_row t2) (buf t3) (cur_col t3) (cur_row t3) = true /\ ((cols t2 = cols t0 -> rows t2 < rows t0 -> cur_col t2 < cols t0) -> same_character (buf t0) (cur_col t2) (cur_row t2) (buf t3) (cur_col t3) (cur_row t3))).
+Print Assumptions C16_excursion_47_with_resizes.
+
